@@ -92,6 +92,14 @@ class Inputs:
         self.mats = [r.randn(4, 2), r.randn(3, 2), r.randn(5, 2)]
         self.T4 = r.rand(3, 3, 3, 3)
         self.cp = (np.array([1.0, 2.0]), [A, B, C])
+        # argument forms / shape regimes
+        self.y_n1 = r.randn(12, 1)
+        self.Xmat = r.randn(12, 5)
+        self.Xother, self.yother = r.randn(9, 3, 4), r.randn(9)            # "other data" an estimator saw before
+        self.T2 = r.randn(5, 4)                                             # order 2
+        self.T4s = np.einsum("ir,jr,kr,lr->ijkl", r.rand(3, 2), r.rand(2, 2), r.rand(3, 2), r.rand(2, 2)) + 0.01 * r.rand(3, 2, 3, 2)  # order 4
+        self.T1 = r.rand(4, 1, 5)                                           # a mode of size 1
+        self.vecs = [r.randn(4), r.randn(3)]
 
 
 _INPUTS = None
@@ -104,8 +112,32 @@ def inputs():
     return _INPUTS
 
 
+# The caller's argument objects.  They are built ONCE PER TRACE (a private copy of the fixed inputs) and the very
+# same array / list objects are handed to every call of that trace -- as a user does who calls a seeded routine twice
+# on the data he holds.  A routine that overwrites its inputs therefore shows up as "same seed, same arguments,
+# different result" (it is a C15 violation too; the `inp` field of the events says whether the arguments changed).
+_ARGS = {}
+
+
+def new_trace_arguments():
+    _ARGS.clear()
+
+
 def c(a):
-    return [x.copy() for x in a] if isinstance(a, list) else a.copy()
+    k = id(a)
+    if k not in _ARGS:
+        _ARGS[k] = (a, [x.copy() for x in a] if isinstance(a, list) else a.copy())      # keep `a` alive: ids stay unique
+    return _ARGS[k][1]
+
+
+def arguments_digest():
+    """constant while every argument object still holds its pristine content; otherwise identifies what they hold now"""
+    changed = []
+    for k in sorted(_ARGS):
+        orig, mine = _ARGS[k]
+        if _flat(orig, []) != _flat(mine, []):
+            changed.append(_flat(mine, []))
+    return _h(["changed"] + [str(x) for x in changed]) if changed else "pristine"
 
 
 # ----------------------------------------------------------------------------- the registry
@@ -282,21 +314,58 @@ def _entries():
     # ---- regression
     by_params = lambda m: type(m)(**m.get_params())
 
-    def fit_cpreg(m):
-        m.fit(c(I.X), c(I.y))
-        return [m.weight_tensor_, m.cp_weight_, m.predict(c(I.X))]
+    def reg_fit(Xk, yk, attrs):
+        def fit(m):
+            X, y = c(getattr(I, Xk)), c(getattr(I, yk))
+            m.fit(X, y)
+            return [getattr(m, a) for a in attrs] + [m.predict(X)]
+        return fit
 
-    def fit_tuckreg(m):
-        m.fit(c(I.X), c(I.y))
-        return [m.weight_tensor_, m.tucker_weight_, m.predict(c(I.X))]
+    def plsr_all(Xk, yk):
+        def fit(m):
+            X, Y = c(getattr(I, Xk)), c(getattr(I, yk))
+            m.fit(X, Y)
+            return [m.X_factors, m.Y_factors, m.coef_, m.predict(X), m.transform(X, Y), m.transform(X), m.score(X, Y)]
+        return fit
 
-    def fit_plsr(m):
-        m.fit(c(I.X), c(I.Y2))
-        return [m.X_factors, m.Y_factors, m.coef_, m.predict(c(I.X))]
+    def plsr_ft(Xk, yk):
+        return lambda m: [m.fit_transform(c(getattr(I, Xk)), c(getattr(I, yk))), m.coef_]
+    # the response in its three forms: vector (n,), column (n,1), matrix (n,2) -- where the estimator accepts it
+    for yk, form in (("y", "y=(n,)"), ("y_n1", "y=(n,1)"), ("Y2", "y=(n,2)")):
+        addc("CPRegressor", form, lambda rs: CPRegressor(2, tol=0, n_iter_max=4, random_state=rs), reg_fit("X", yk, ["weight_tensor_", "cp_weight_"]), det_parafac, clone=by_params, slow=yk != "y")
+        if yk != "Y2":       # TuckerRegressor rejects a matrix response
+            addc("TuckerRegressor", form, lambda rs: TuckerRegressor([2, 2], tol=0, n_iter_max=4, random_state=rs), reg_fit("X", yk, ["weight_tensor_", "tucker_weight_"]), det_tucker, clone=by_params, slow=yk != "y")
+        addc("CP_PLSR", form + ",fit+predict+transform+score", lambda rs: CP_PLSR(2, n_iter_max=5, random_state=rs), plsr_all("X", yk), det_svdi, clone=by_params, slow=yk == "y_n1")
+        addc("CP_PLSR", form + ",fit_transform", lambda rs: CP_PLSR(2, n_iter_max=5, random_state=rs), plsr_ft("X", yk), det_svdi, clone=by_params, slow=True)
+    addc("CP_PLSR", "X=matrix,y=(n,),fit+predict+transform+score", lambda rs: CP_PLSR(2, n_iter_max=5, random_state=rs), plsr_all("Xmat", "y"), det_svdi, clone=by_params, slow=True)
+    for e in E:
+        if "obj" in e and e["fn"] in ("CPRegressor", "TuckerRegressor", "CP_PLSR"):
+            e["obj"]["other"] = lambda m: m.fit(c(I.Xother), c(I.yother))                 # a fit on other data
+            e["obj"]["failing"] = lambda m: m.fit(c(I.Xother), c(I.y))                    # mismatching sample counts
+        elif "obj" in e:
+            e["obj"]["other"] = lambda m: m.fit_transform(c(I.pslices) if "Parafac2" in type(m).__name__ else c(I.T4s))
+            e["obj"]["failing"] = lambda m: m.fit_transform("not a tensor")
 
-    addc("CPRegressor", "", lambda rs: CPRegressor(2, tol=0, n_iter_max=4, random_state=rs), fit_cpreg, det_parafac, clone=by_params)
-    addc("TuckerRegressor", "", lambda rs: TuckerRegressor([2, 2], tol=0, n_iter_max=4, random_state=rs), fit_tuckreg, det_tucker, clone=by_params)
-    addc("CP_PLSR", "", lambda rs: CP_PLSR(2, n_iter_max=5, random_state=rs), fit_plsr, det_svdi, clone=by_params)
+    # ---- shape regimes: order 2, order 4, a mode of size 1, rank above a dimension, vectors instead of matrices
+    add("parafac", "init=random,order=2", lambda rs: D.parafac(c(I.T2), 2, n_iter_max=3, init="random", tol=0, random_state=rs), det_parafac, slow=True)
+    add("parafac", "init=random,order=4", lambda rs: D.parafac(c(I.T4s), 2, n_iter_max=3, init="random", tol=0, random_state=rs), det_parafac, slow=True)
+    add("parafac", "init=random,size-1 mode", lambda rs: D.parafac(c(I.T1), 2, n_iter_max=3, init="random", tol=0, random_state=rs), det_parafac, slow=True)
+    add("parafac", "init=svd,svd=randomized_svd,order=4,rank>dims", lambda rs: D.parafac(c(I.T4s), 4, n_iter_max=3, init="svd", svd="randomized_svd", tol=0, random_state=rs), det_parafac, slow=True)
+    add("non_negative_parafac_hals", "init=svd,rank>dim", lambda rs: D.non_negative_parafac_hals(c(I.P), 4, n_iter_max=1, init="svd", tol=0, random_state=rs), det_nnhals, slow=True)
+    add("randomised_parafac", "init=svd,rank>dim", lambda rs: D.randomised_parafac(c(I.T), 4, 8, n_iter_max=3, init="svd", tol=0, random_state=rs), det_parafac, slow=True)
+    add("tucker", "init=random,order=2", lambda rs: D.tucker(c(I.T2), [2, 2], n_iter_max=3, init="random", tol=0, random_state=rs), det_tucker, slow=True)
+    add("tucker", "init=random,order=4", lambda rs: D.tucker(c(I.T4s), [2, 2, 2, 2], n_iter_max=3, init="random", tol=0, random_state=rs), det_tucker, slow=True)
+    add("tucker", "init=svd,svd=randomized_svd,size-1 mode", lambda rs: D.tucker(c(I.T1), [2, 1, 2], n_iter_max=3, init="svd", svd="randomized_svd", tol=0, random_state=rs), det_tucker, slow=True)
+    add("non_negative_tucker", "init=random,order=4", lambda rs: D.non_negative_tucker(c(I.T4s), [2, 2, 2, 2], n_iter_max=3, init="random", tol=0, random_state=rs), det_nntucker, slow=True)
+    add("tensor_ring_als", "order=4", lambda rs: D.tensor_ring_als(c(I.T4s), [2, 2, 2, 2, 2], n_iter_max=3, tol=0, random_state=rs), det_tr, slow=True)
+    add("tensor_ring_als_sampled", "order=4", lambda rs: D.tensor_ring_als_sampled(c(I.T4s), [2, 2, 2, 2, 2], 8, n_iter_max=3, tol=0, random_state=rs), det_tr, slow=True)
+    add("tensor_train_cross", "order=4", lambda rs: tensor_train_cross(c(I.T4s), [1, 2, 2, 2, 1], tol=1e-4, n_iter_max=3, random_state=rs), det_tt, slow=True)
+    add("constrained_parafac", "init=random,order=2", lambda rs: D.constrained_parafac(c(I.T2), 2, n_iter_max=2, n_iter_max_inner=2, init="random", l2_reg=0.1, random_state=rs), det_ccp, slow=True)
+    add("randomized_svd", "size-1 dimension", lambda rs: randomized_svd(c(I.y_n1), n_eigenvecs=1, random_state=rs), det_tsvd, slow=True)
+    add("sample_khatri_rao", "vectors(one column)", lambda rs: D.sample_khatri_rao([v.reshape(-1, 1) for v in c(I.vecs)], 5, random_state=rs), det_kr, slow=True)
+    add("random_cp", "size-1 mode,rank>dim", lambda rs: tr.random_cp((3, 1, 2), 3, random_state=rs), det_cpt, slow=True)
+    add("random_tucker", "order=2", lambda rs: tr.random_tucker((3, 4), [2, 2], random_state=rs), det_modedot, slow=True)
+    add("random_tt", "order=4", lambda rs: tr.random_tt((3, 2, 3, 2), [1, 2, 2, 2, 1], random_state=rs), det_tt, slow=True)
     for k, e in enumerate(E):
         e["key"] = e["fn"] + ("[" + e["opt"] + "]" if e["opt"] else "")
     return E
@@ -348,6 +417,7 @@ def run_trace(case):
                start: real seed of the global stream at trace start, flavour: index into PERTURB}
     Returns the list of events (Reset first)."""
     ent = registry()[case["entry"]]
+    new_trace_arguments()
     sform = SEEDFORMS[case.get("seedform", "int")]
     real = {int(k): sform(int(v)) for k, v in case["seeds"].items()}
     tab = {}
@@ -374,10 +444,21 @@ def run_trace(case):
         if isinstance(objs[o], Exception):
             raise objs[o]
         return objs[o]
+    # control path: what the estimator object went through BEFORE the history starts must not matter -- a fit on other
+    # data, or a fit that failed (state surviving between calls)
+    pre = case.get("prefit", "none")
+    if pre != "none" and "obj" in ent and pre in ent["obj"]:
+        for o in objs:
+            try:
+                ent["obj"][pre](the_obj(o))
+            except Exception:
+                pass
+        np.random.seed(int(case["start"]))
     perturb = PERTURB[int(case["flavour"]) % len(PERTURB)]
 
     def obs():
-        return {"glob": intern("S" + state_digest(np.random.get_state())),
+        return {"inp": intern("A" + arguments_digest()),
+                "glob": intern("S" + state_digest(np.random.get_state())),
                 "gens": {g: intern("S" + gen_state_digest(r)) for g, r in gens.items()}}
 
     events = []
